@@ -164,7 +164,7 @@ SignerListHonest(p, o) ==
 
 StepOk(p, e) ==
     /\ AppendOnly(p, e.obs)
-    /\ C14 => NewCertRules(p, e.obs)
+    /\ C14 => (NewCertRules(p, e.obs) /\ SignerListHonest(p, e.obs))   \* "... on which signers registered for that epoch HAD SIGNED"
     /\ C16 => (KeepsOthers(p, e) /\ BatchDelivers(p, e) /\ SignerListHonest(p, e.obs))
 
 -----------------------------------------------------------------------------
